@@ -7,6 +7,7 @@ import (
 	"strings"
 
 	vm "github.com/pojntfx/stfs/internal/verifmodel"
+	"github.com/pojntfx/stfs/pkg/cache"
 	"github.com/pojntfx/stfs/pkg/config"
 	"github.com/pojntfx/stfs/pkg/inventory"
 	"github.com/pojntfx/stfs/pkg/persisters"
@@ -132,4 +133,56 @@ func Harness_C17_foreign_archive() {
 		vm.Assert("C17.rebuild_same_root", rroot == root)
 	}
 	vm.Assert("C17.locks_free", v.Env.LocksFree())
+}
+
+// Harness_C17_documented_composition: the filesystem returned by cache.NewCacheFilesystem(stfs, root, none)
+// (a BasePathFs view when the root is a named top directory) resolves user-level paths to the members.
+func Harness_C17_documented_composition() {
+	v := verifNewFS(config.PipeConfig{}, false, true)
+	t := v.Env.Tape
+	style := vm.Choice("style", 2)
+	d := persisters.VerifComponent("D", 1, "ab")
+	f := persisters.VerifComponent("F", 1, "ab")
+	top, prefix := "./", "./"
+	if style == 1 {
+		top, prefix = "t", "t/"
+	}
+	add := func(name string, dir bool, size int64) {
+		tf := byte(tar.TypeReg)
+		if dir {
+			tf = tar.TypeDir
+		}
+		var data []byte
+		if size > 0 {
+			data = make([]byte, size)
+		}
+		t.AddMember(&tar.Header{Typeflag: tf, Name: name, Size: size, Mode: 0o644, Format: tar.FormatUSTAR}, 1, size, data)
+	}
+	add(top, true, 0)
+	add(prefix+d, true, 0)
+	add(prefix+d+"/"+f, false, 3)
+	t.AddTrailer()
+	root, err := v.FS.Initialize("/", os.ModePerm)
+	vm.Assert("C17.composition_initialize_ok", err == nil)
+	if err != nil {
+		return
+	}
+	cfs, cerr := cache.NewCacheFilesystem(v.FS, root, config.NoneKey, 0, "")
+	vm.Assert("C17.composition_ok", cerr == nil)
+	if cerr != nil {
+		return
+	}
+	for i, sp := range []string{"/" + d + "/" + f, d + "/" + f} {
+		fi, e := cfs.Stat(sp)
+		vm.Assert("C17.composition_member_resolves."+string(rune('0'+i)), e == nil && fi != nil && fi.Size() == 3 && !fi.IsDir())
+	}
+	fi, e := cfs.Stat("/" + d)
+	vm.Assert("C17.composition_dir_resolves", e == nil && fi != nil && fi.IsDir())
+	h, oerr := cfs.Open("/" + d)
+	vm.Assert("C17.composition_open_dir", oerr == nil)
+	if oerr == nil {
+		names, rerr := h.Readdirnames(-1)
+		vm.Assert("C17.composition_lists_member_once", rerr == nil && len(names) == 1 && names[0] == f)
+		h.Close()
+	}
 }
